@@ -256,6 +256,18 @@ def build_driver(prop):
     return os.path.join(LEAN, ".lake", "build", "bin", exe)
 
 
+def modfile_args():
+    """The harness go.mod replaces the franz-go modules by /repo. When VERIF_REPO points elsewhere (a scratch
+    worktree used to try a seeded change) an alternative go.mod with the other path is generated and used."""
+    if REPO == "/repo":
+        return []
+    alt = os.path.join(BUILD, "alt_%s.mod" % hashlib.sha1(REPO.encode()).hexdigest()[:8])
+    src = open(os.path.join(HARNESS, "go.mod")).read().replace("=> /repo", "=> " + REPO)
+    open(alt, "w").write(src)
+    shutil.copy(os.path.join(HARNESS, "go.sum"), alt[:-4] + ".sum")
+    return ["-modfile=" + alt]
+
+
 def build_harness(prop):
     ensure_go_sum()
     os.makedirs(BUILD, exist_ok=True)
@@ -264,9 +276,9 @@ def build_harness(prop):
         os.remove(out)
     pkg = "./cmd/" + prop.harness
     if prop.harness_kind == "test":
-        cmd = ["go", "test", "-c", "-tags", prop.tags, "-o", out, pkg]
+        cmd = ["go", "test", "-c"] + modfile_args() + ["-tags", prop.tags, "-o", out, pkg]
     else:
-        cmd = ["go", "build", "-tags", prop.tags, "-o", out, pkg]
+        cmd = ["go", "build"] + modfile_args() + ["-tags", prop.tags, "-o", out, pkg]
     rc, o, e = sh(cmd, cwd=HARNESS, env=GOENV, timeout=1200)
     if rc != 0 or not os.path.exists(out):
         raise Broken("harness %s does not build against /repo" % prop.harness, (o + e)[-4000:])
@@ -284,7 +296,7 @@ def fingerprints(prop):
             parts = line.split()
             if len(parts) == 3:
                 res[parts[0] + ":" + parts[1]] = parts[2]
-    known_p = os.path.join(LEAN, "fingerprints.json")
+    known_p = os.path.join(LEAN, "fingerprints", prop.id + ".json")
     known = json.load(open(known_p)) if os.path.exists(known_p) else {}
     return {k: ("ok" if known.get(k) == v else ("new:" + v[:12] if k not in known else "changed")) for k, v in res.items()}
 
